@@ -244,7 +244,7 @@ def _run_vacuum(case):
             b = abtem.Probe(semiangle_cutoff=18.0, energy=energy, tilt=t, defocus=case["defocus"])
             w = b.multislice(pot, scan=[tuple(case["position"])], lazy=case["lazy"])
         if case["lazy"]:
-            w = w.compute(scheduler="synchronous")
+            w = w.compute(scheduler="synchronous", progress_bar=False)
         return np.asarray(w.array)
 
     a, a0 = run(tilt), run((0.0, 0.0))
@@ -301,7 +301,7 @@ def _run_forms(case):
             w = abtem.Probe(semiangle_cutoff=20.0, energy=energy, tilt=tilt, defocus=30.0).multislice(
                 pot, scan=[tuple(case["position"])], lazy=lz, max_batch=mb)
         if lz:
-            w = w.compute(scheduler="synchronous")
+            w = w.compute(scheduler="synchronous", progress_bar=False)
         return w
 
     w_axes = run((np.array(tx), np.array(ty)))
